@@ -176,7 +176,14 @@ def run(ctx):
                          (b"/nonexist|/MBOX-MESSAGE/1\r\n", False), (b"/maild|/MAILDIR-MESSAGE/99\r\n", False), (b"/maild/new\r\n", False),
                          (b"/maild\r\n", False), (b"/mail/noheaders.mbox\r\n", False), (b"/menu.gophermap\t+\r\n", False),
                          (b"gemini://h/a%0d%0ab\r\n", True), (b"gemini://h/a%0Ab\r\n", True), (b"gemini://h/a%0Db%0A%0Ac\r\n", True), (b"h /a%0Ab 0\r\n", False),
-                         (b"h /a%0D2%20text/gemini%0Dinjected 0\r\n", False), (b"h /a%0d%0a2%20text/gemini%0d%0ainjected 0\r\n", False), (b"\r\n", False), (b"", False)]
+                         (b"h /a%0D2%20text/gemini%0Dinjected 0\r\n", False), (b"h /a%0d%0a2%20text/gemini%0d%0ainjected 0\r\n", False), (b"\r\n", False), (b"", False),
+                         # a Maildir's own sub-directories listed as plain directories (cache files are left in them), then its messages by number
+                         (b"/maild/cur\r\n", False), (b"/maild/new\r\n", False), (b"/maild|/MAILDIR-MESSAGE/1\r\n", False), (b"/maild|/MAILDIR-MESSAGE/2\r\n", False),
+                         (b"/maild|/MAILDIR-MESSAGE/3\r\n", False), (b"/maild|/MAILDIR-MESSAGE/4\r\n", False), (b"/maild\t$\r\n", False),
+                         # message numbers far beyond any mailbox
+                         (b"/mail/box.mbox|/MBOX-MESSAGE/1000000000000000\r\n", False), (b"/maild|/MAILDIR-MESSAGE/99999999999999999999\r\n", False),
+                         (b"GET /mail/box.mbox%7C/MBOX-MESSAGE/123456789012345678 HTTP/1.0\r\n\r\n", False), (b"/mail/box.mbox|/MBOX-MESSAGE/0\r\n", False),
+                         (b"/mail/box.mbox|/MBOX-MESSAGE/-1\r\n", False)]
                 requests = fixed + requests
                 seq_out = []
                 for rq, tls in requests:
@@ -225,7 +232,7 @@ def run(ctx):
                             checks.append((dict(inp, proto=proto), r.out))
                 # ---- history independence: each request again on a fresh copy -------------
                 nh = ctx.n(120, 1200)
-                idxs = sorted(rng.sample(range(len(requests)), min(nh, len(requests))))
+                idxs = sorted(set(rng.sample(range(len(requests)), min(nh, len(requests)))) | set(range(len(fixed))))     # the fixed histories always
                 for i in idxs:
                     if seq_out[i] is None:
                         continue
